@@ -43,6 +43,15 @@ def interp_for_constants(repo):
             except Unsupported:
                 pass
     I.table_env = env
+    # the tables are found by role and get canonical names in the atoms, whatever the source calls them
+    um, _nm, unode = xlate.unit_table(repo)
+    I.table_names[id(unode)] = 'unit_dict'
+    for fname in ('R', 'kb', 'h', 'c'):
+        try:
+            tm, _n, node = const_table(repo, m, fname, exclude=(unode,))
+        except AnchorError:
+            continue
+        I.table_names[id(node)] = fname + '_dict'
     return I
 
 
@@ -70,28 +79,17 @@ def call(I, m, fname, **kw):
     return I.call_function(m, fn, [], kw, name=MOD + '.' + fname)
 
 
-def local_table(m, fname, tname):
+def const_table(repo, m, fname, exclude=()):
+    """(module, variable name, ast.Dict) of the single numeric table the public constants function ``fname`` consults,
+    wherever it is kept (a local literal, a module-level table, another private module)"""
     fn = m.functions.get(fname)
     if fn is None:
         raise AnchorError('%s.%s not found' % (MOD, fname))
-    for n in ast.walk(fn):
-        if isinstance(n, ast.Assign) and isinstance(n.targets[0], ast.Name) \
-                and n.targets[0].id == tname and isinstance(n.value, ast.Dict):
-            return n.value
-    raise AnchorError('table %s not found in %s.%s' % (tname, MOD, fname))
-
-
-def find_table_name(m, fname):
-    """name of the (single) local dict-literal table of a constants function"""
-    fn = m.functions.get(fname)
-    if fn is None:
-        raise AnchorError('%s.%s not found' % (MOD, fname))
-    names = [n.targets[0].id for n in ast.walk(fn)
-             if isinstance(n, ast.Assign) and isinstance(n.targets[0], ast.Name)
-             and isinstance(n.value, ast.Dict)]
-    if len(names) != 1:
-        raise AnchorError('expected one table literal in %s.%s, found %s' % (MOD, fname, names))
-    return names[0]
+    cands = [(tm, nm, nd) for tm, nm, nd in repo.reached_tables(m, fn)
+             if xlate.numeric_table(tm, nd) and not any(nd is x for x in exclude)]
+    if len(cands) != 1:
+        raise AnchorError('expected one numeric table behind %s.%s, found %s' % (MOD, fname, [c_[1] for c_ in cands]))
+    return cands[0]
 
 
 def split_unit(u):
@@ -123,31 +121,32 @@ def check(run, repo):
     type_dict = fold_value(m, type_node)
     run.table('type_dict', 'unit_dict', 'R_dict', 'kb_dict', 'h_dict', 'c_dict',
               'atomic_weight', 'S_elements', 'symmetry_dict')
-    unit_node = local_table(m, 'convert_unit', 'unit_dict')
+    um, _uname, unit_node = xlate.unit_table(repo)
     Na = fold_num(m, m.assigns['Na'][-1]) if 'Na' in m.assigns else None
     if Na is None:
         raise AnchorError('Na not found')
     ud = {}
     for k, v in zip(unit_node.keys, unit_node.values):
-        ud[fold_value(m, k)] = fold_num(m, v, {'Na': Na})
+        ud[fold_value(um, k)] = fold_num(um, v, {'Na': Na})
     run.floor('unit_dict keys', len(ud), 60)
     run.floor('type_dict keys', len(type_dict), 60)
 
     # ---- duplicate keys silently shadowing entries (TABLE) -------------
     for tname, node in (('type_dict', type_node), ('unit_dict', unit_node)):
-        dups = duplicate_keys(m, node)
+        tmod = um if node is unit_node else m
+        dups = duplicate_keys(tmod, node)
         run.check(not dups, 'TABLE.dupkey', 'constants.%s' % tname, 'dup:%s' % dups,
-                  'duplicate key(s) %s silently shadow an earlier entry' % dups, m, node)
+                  'duplicate key(s) %s silently shadow an earlier entry' % dups, tmod, node)
 
     # ---- every admitted non-temperature unit has a factor ---------------
     for u, ty in sorted(type_dict.items()):
         if ty == 'temp':
             continue
         run.check(u in ud, 'TABLE.factor', 'constants.convert_unit', 'unit:%s' % u,
-                  'unit %r is admitted by type_dict but has no factor in unit_dict' % u, m, unit_node)
+                  'unit %r is admitted by type_dict but has no factor in unit_dict' % u, um, unit_node)
     for u in sorted(set(ud) - set(type_dict)):
         run.note('unit_dict has a factor for %r which type_dict does not admit (refused; no clause '
-                 'of C12 broken)' % u, m, unit_node)
+                 'of C12 broken)' % u, um, unit_node)
 
     # ---- convert_unit: shape for every pair ------------------------------
     I = interp_for_constants(repo)
@@ -268,6 +267,8 @@ def check(run, repo):
                   'temp:C->F', 'C->F is not 1.8*x + 32', m, m.functions['convert_unit'])
 
     # ---- derived entries of unit_dict (numeric, literal roundings) -------
+    table_mod = {}
+
     def rel(name, got, want, key, why, node=unit_node, rule='TABLE.derived'):
         ok = got.approx(want)
         dev = abs(got.v / want.v - 1) if want.v != 0 else abs(got.v)
@@ -275,7 +276,7 @@ def check(run, repo):
         run.check(ok, rule, name, key,
                   '%s: table value %.10g vs definition %.10g (relative deviation %.2e, allowed by '
                   'literal roundings %.2e)' % (why, float(got.v), float(want.v), float(dev), float(tol)),
-                  m, node,
+                  um if node is unit_node else table_mod.get(id(node), m), node,
                   sample={'relation': key, 'table': float(got.v), 'definition': float(want.v),
                           'rel_dev': float(dev), 'tol': float(tol)})
 
@@ -349,12 +350,13 @@ def check(run, repo):
         return out
 
     def table_keys(fname):
-        tn = find_table_name(m, fname)
-        node = local_table(m, fname, tn)
-        dups = duplicate_keys(m, node)
+        tm, _srcname, node = const_table(repo, m, fname, exclude=(unit_node,))
+        tn = fname + '_dict'        # canonical atom prefix (see interp_for_constants)
+        table_mod[id(node)] = tm
+        dups = duplicate_keys(tm, node)
         run.check(not dups, 'TABLE.dupkey', 'constants.%s' % fname, 'dup:%s' % dups,
-                  'duplicate key(s) %s in %s' % (dups, tn), m, node)
-        return tn, [fold_value(m, k) for k in node.keys], node
+                  'duplicate key(s) %s in the table of %s' % (dups, fname), tm, node)
+        return tn, [fold_value(tm, k) for k in node.keys], node
 
     Rn, Rkeys, Rnode = table_keys('R')
     kn, kbkeys, kbnode = table_keys('kb')
@@ -391,7 +393,7 @@ def check(run, repo):
             want = R_SI * ufac(nump)
         except KeyError as e:
             run.fail('TABLE.const', 'constants.R', 'key:%s' % k,
-                     'unit part %s of R key has no conversion factor' % e, m, Rnode)
+                     'unit part %s of R key has no conversion factor' % e, table_mod.get(id(Rnode), m), Rnode)
             continue
         if 'mol' not in den:
             want = want / Na
